@@ -11,6 +11,7 @@ import (
 	"os/exec"
 	"path/filepath"
 	"strings"
+	"sync"
 	"syscall"
 	"testing"
 
@@ -306,7 +307,49 @@ func TestOpMatrixV8(t *testing.T) {
 
 // ---------------------------------------------------------------- replay
 
+// replay answers from a table filled by evaluating all corpus files
+// concurrently (core.RunReplays calls it sequentially on the first shard).
 func replay(test string, raw json.RawMessage) (string, string) {
+	if os.Getenv("VERIF_MODE") == "corpus" {
+		prewarmOnce.Do(prewarm)
+		if r, ok := prewarmed[string(raw)]; ok {
+			return r[0], r[1]
+		}
+	}
+	return replayOne(test, raw)
+}
+
+var (
+	prewarmOnce sync.Once
+	prewarmed   = map[string][2]string{}
+)
+
+func prewarm() {
+	files, _ := filepath.Glob(filepath.Join(core.VerifDir(), "corpus", prop, "*.json"))
+	var mu sync.Mutex
+	var wg sync.WaitGroup
+	sem := make(chan struct{}, 8)
+	for _, f := range files {
+		rf, err := core.LoadReplay(f)
+		if err != nil {
+			continue
+		}
+		wg.Add(1)
+		go func(rf *core.ReplayFile) {
+			defer wg.Done()
+			sem <- struct{}{}
+			defer func() { <-sem }()
+			defer func() { recover() }() // a panicking case is evaluated again (and reported) by the sequential path
+			k, w := replayOne(rf.Test, rf.Case)
+			mu.Lock()
+			prewarmed[string(rf.Case)] = [2]string{k, w}
+			mu.Unlock()
+		}(rf)
+	}
+	wg.Wait()
+}
+
+func replayOne(test string, raw json.RawMessage) (string, string) {
 	var p payload
 	if err := json.Unmarshal(raw, &p); err != nil {
 		return "harness/bad-replay", err.Error()
